@@ -149,6 +149,9 @@ def run(prog, rep):
     rep.rule('R15.6', 'datetime text -> time_point: with the parsed year ranging over int64 (month/day/time at their extremes) no signed operation '
                       'of the civil-date arithmetic leaves its type (floor-division lemma x - floor(x/k)*k in [0,k-1] built in)', floor=1)
     check_civil(prog, rep)
+    rep.rule('R15.7', 'fractions of a second: ParseSecondFractions executed over (digit count 1..10) x (boundary values with that many digits): '
+                      'd digits with value v are stored as v * 10^-d s in target periods; more than nine digits are refused', floor=10)
+    check_fraction_scale(prog, rep)
 
 
 # ------------------------------------------------------------------------------------------------ R15.2 SafeAddDuration (linear)
@@ -559,3 +562,116 @@ def check_civil(prog, rep):
                             '%s: %s - undefined behaviour before the range guard' % (short, msg), func=f.id)
         else:
             rep.ok('R15.6', short, sample={'function': short, 'cells': n_cells})
+
+
+# ------------------------------------------------------------------------------------------------ R15.7 scaling of the fraction digits
+class FracModel(Model):
+    """ParseSecondFractions executed over (number of digits d, parsed value v): std::from_chars delivers v and stops d characters after pos"""
+    unroll_loops = True
+
+    def __init__(self, d, v):
+        self.d, self.v = d, v
+
+    def initial_store(self, it, key):
+        return TOP
+
+    def compare(self, it, fr, n, op, a, b):
+        from bsv.dtab import Pos
+        if isinstance(a, Pos) and isinstance(b, Pos) and isinstance(a.k, int) and isinstance(b.k, int):
+            return 1 if {'==': a.k == b.k, '!=': a.k != b.k, '<': a.k < b.k, '<=': a.k <= b.k, '>': a.k > b.k, '>=': a.k >= b.k}[op] else 0
+        return Sym(('GUARD', 'CMP@%s' % fr.f.loc(n)))
+
+    def arith(self, it, fr, n, op, a, b):
+        from bsv.dtab import Pos
+        if op == '-' and isinstance(a, Pos) and isinstance(b, Pos) and isinstance(a.k, int) and isinstance(b.k, int):
+            return a.k - b.k
+        return TOP
+
+    def construct(self, it, fr, n, depth):
+        vals = [it.ev(fr, a, depth) for a in n.get('c', ())]
+        return vals[0] if len(vals) == 1 else TOP
+
+    def primitive(self, it, fr, n, callee, depth):
+        from bsv.dtab import Pos
+        obj, args = it.call_args(fr, n)
+        if callee['q'] == 'std::from_chars':
+            key = it.lvalue(fr, args[2], depth)
+            if key is None:
+                raise AnalysisBroken('R15.7: std::from_chars target is not a local')
+            it.write_key(fr, key, self.v)
+            st = Struct()
+            st.fields['ec'] = 0
+            st.fields['ptr'] = Pos(self.d)
+            it.act('FROM_CHARS')
+            return st
+        if callee['n'] == 'operator=' and obj is not None:
+            key = it.lvalue(fr, obj, depth)
+            v = it.ev(fr, args[0], depth) if args else TOP
+            if key is not None:
+                it.write_key(fr, key, v)
+            return v
+        if callee.get('repo'):
+            return NotImplemented
+        for a in args:
+            it.ev(fr, a, depth)
+        return TOP
+
+
+class FracInterp(Interp):
+    def ev(self, fr, n, depth):
+        if n is not None and n['k'] == 'InitListExpr' and n.get('c') and all('cv' in c for c in n['c']):
+            return [c['cv'] for c in n['c']]
+        return Interp.ev(self, fr, n, depth)
+
+    def cast_other(self, v, t):
+        return v if isinstance(v, list) else Interp.cast_other(self, v, t)
+
+    def coerce(self, v, t):
+        return v if isinstance(v, list) else Interp.coerce(self, v, t)
+
+
+def check_fraction_scale(prog, rep):
+    """d digits denoting the value v (leading zeros included in d) are v * 10^-d seconds: the stored count is that many target periods, truncated"""
+    from bsv.dtab import Pos
+    fs = sorted((f for f in prog.funcs.values() if f.name == 'ParseSecondFractions' and f.body is not None and 'convert_chrono.h' in f.relfile),
+                key=lambda g: g.id)
+    if not fs:
+        raise AnalysisBroken('anchor vanished: ParseSecondFractions')
+    seen = set()
+    for f in fs:
+        m = re.search(r'std::ratio<1, (\d+)>', f.id)
+        if not m or f.id in seen:
+            continue
+        seen.add(f.id)
+        den = int(m.group(1))
+        rep.touch(f)
+        for d in range(1, 11):
+            vals = sorted(set(v for v in (1, 9, 10 ** (d - 1), 10 ** (d - 1) + 1, 10 ** d - 1, 5 * 10 ** (d - 1), 123456789 % 10 ** d or 1,
+                                          987654321 // 10 ** max(0, 9 - d) if d <= 9 else 1) if 0 < v < min(10 ** d, 1 << 32)))
+            bad = None
+            for v in vals:
+                it = FracInterp(prog, FracModel(d, v), max_depth=2, max_paths=50)
+
+                def init(it_, fr):
+                    fr.env[f.params[0]['d']] = Pos(0)
+                    fr.env[f.params[1]['d']] = Pos(d + 1)
+                    fr.alias[f.params[2]['d']] = 'out.time'
+                for p in it.run(f, init):
+                    got = p.store.get('out.time', TOP)
+                    ret = p.outcome[1] if p.outcome[0] == 'RET' else p.outcome
+                    if d <= 9:
+                        want = v * 10 ** (9 - d) * den // 10 ** 9
+                        if not (isinstance(ret, Pos) and ret.k == d):
+                            bad = 'with %d digit(s) the function does not return the end of the digits (%r)' % (d, ret)
+                        elif got != want:
+                            bad = '%d digit(s) with value %d (0.%0*d s) are stored as %s periods of 1/%d s, expected %d' % (d, v, d, v, got, den, want)
+                    else:
+                        if ret not in (0, None) or isinstance(ret, Pos):
+                            bad = 'more than nine digits are accepted (returns %r)' % (ret,)
+                if bad:
+                    break
+            site = 'ParseSecondFractions<1/%d>|%d digit(s)' % (den, d)
+            if bad:
+                rep.finding('R15.7', site, f.loc(), 'ParseSecondFractions (period 1/%d s): %s' % (den, bad), {'instantiation': f.id}, func=f.id)
+            else:
+                rep.ok('R15.7', site, sample={'period_den': den, 'digits': d, 'values': vals} if d in (1, 7) else None)
